@@ -1,6 +1,6 @@
 """C19 — a peer receives the sender's keyspace state unchanged."""
 ID = 'C19'
-RULE = ('one case = 2 real nodes over loopback RPC; the sender\'s keyspace state is built by a generated history (empty; tombstone-only; puts/deletes from up to 4 origins through both sources via deliveries and repairs; purged; '
+RULE = ('one case = 2 real nodes over loopback RPC; the sender\'s keyspace state is built by a generated history (empty; tombstone-only; puts/deletes from up to 4 origins through both sources via deliveries and repairs; purged; aged states whose tombstones are old enough to be purged, fetched before and after the purge with no write in between; '
         'or `bulk` states of 100-20 000 entries); the receiver obtains it through the real ReplicationClient::get_state (GetState handler -> Serialize -> frame -> DataView -> nested unchecked decode) and the received set is '
         'compared with the sender\'s own state: all live ids, all tombstones, all stamps, and the per-origin accept/refuse cut-offs (bisected with will_apply); small states are also compared with the Lean cluster model. '
         'Malformed stream: a peer answering GetState with a CRC-valid frame whose nested bytes are empty / truncated / garbage must produce an error. non-trivial = the transferred state has both live entries and tombstones; distinct by hash')
@@ -42,16 +42,47 @@ def gen_case(rng, idx, big):
         if rng.chance(1, 3): lines.append('purge 0')
     if big:
         lines.append('bulk 0 %d %d' % (rng.choice([100, 1000, 5000, 20000]), rng.below(1 << 30)))
-    lines += ['localstate 0', 'fetchstate 1 0', 'fetchstate 2 0']
+    lines += ([] if big else ['read 0']) + ['localstate 0', 'fetchstate 1 0', 'fetchstate 2 0']
     if rng.chance(1, 2):
         lines.append('badstate 1 %s' % rng.choice(['-', '00000000', '0000000000000000', 'ff' * 7, '01020304050607080910111213141516', '00' * 64, '7f' * 33]))
     lines.append('end')
     return lines
 
 
+def gen_aged(rng, idx):
+    """The sender (node 0) holds tombstones of another origin that are OLD ENOUGH TO BE PURGED (it has heard from that origin
+    on both sources more than a forgiveness period later) but are still there; the state is fetched, then purged, then
+    fetched again without any write in between."""
+    lines = ['case %d cluster' % idx, 'nodes 3']
+    nops = 0
+    ids = [1, 2, 3][:rng.range(1, 3)]
+    for d in ids:
+        lines.append('put 1 %d %02x' % (d, rng.below(256))); nops += 1
+    dels = rng.shuffle(ids)[:rng.range(1, len(ids))]
+    for d in dels:
+        lines.append('del 1 %d' % d); nops += 1
+    for x in range(nops):
+        lines.append('deliver 0 %d' % x)
+    if rng.chance(1, 2):
+        lines += ['localstate 0', 'fetchstate 2 0']
+    lines.append('advance %d' % rng.choice([3_600_000 + 5000, 2 * 3_600_000, 5 * 3_600_000]))
+    lines.append('put 1 7 %02x' % rng.below(256)); a = nops; nops += 1
+    lines.append('put 1 8 %02x' % rng.below(256)); nops += 1
+    lines.append('deliver 0 %d' % a)                 # source 0 hears from origin 1 after the jump
+    lines.append('repair 0 1 %d' % rng.below(2))     # source 1 too (fetches id 8)
+    lines += ['read 0', 'localstate 0', 'fetchstate 1 0', 'fetchstate 2 0']
+    if rng.chance(2, 3):
+        lines += ['purge 0', 'read 0', 'localstate 0', 'fetchstate 2 0', 'fetchstate 1 0']
+        if rng.chance(1, 2):
+            lines += ['put 0 9 01', 'localstate 0', 'fetchstate 1 0']
+    lines.append('end')
+    return lines
+
+
 def generate(rng, tier):
     n = dict(quick=120, thorough=4000, search=600)[tier]
-    return [gen_case(rng.fork(), i, big=(i % 6 == 0)) for i in range(n)]
+    cases = [gen_case(rng.fork(), i, big=(i % 6 == 0)) for i in range(n)]
+    return cases + [gen_aged(rng.fork(), n + i) for i in range(dict(quick=30, thorough=800, search=100)[tier])]
 
 
 BULK_CASE = set()
@@ -69,10 +100,28 @@ def _unknown(case):
     return any(l.startswith('bulk') for l in case)
 
 
+def _pairs(x):
+    return {} if x == '-' else {int(a): int(b) for a, b in (y.split(':') for y in x.split(','))}
+
+
 def oracle(case, impl):
     bad = []
     local = None
+    store = None
     for line, out in zip(case, impl):
+        if line.startswith(('put', 'del', 'mput', 'mdel', 'deliver', 'repair', 'purge', 'bulk', 'batch')):
+            store = None
+        if line == 'read 0' and ' | store ' in out:
+            st = out.split(' | store ')[1].split(' | docs ')[0]
+            store = ({}, {})
+            if st != '-':
+                for r in st.split(','):
+                    i, ts, tb = r.split(':'); store[1 if tb == 't' else 0][int(i)] = int(ts)
+        if line.startswith('fetchstate') and line.endswith(' 0') and store is not None and out.startswith('state E '):
+            toks = out.split()
+            got = (_pairs(toks[2]), _pairs(toks[4]))
+            if got != store:
+                bad.append('%s: the received state (live %s, tombstones %s) is not what the sender holds (its storage metadata: live %s, tombstones %s)' % (line, got[0], got[1], store[0], store[1]))
         if out.startswith(('crash', 'timeout')):
             bad.append('%s: %s' % (line, out)); continue
         if line.startswith('localstate'):
